@@ -32,7 +32,7 @@ YOUR TASK: make ONE small, realistic source change to the Rust code in /tmp/seed
   3. the property above is now VIOLATED, but only for inputs with some specific feature (a particular construct, name, nesting, size, combination…) — not for every input, so that a handful of sample programs would not notice;
   4. you can demonstrate it: a concrete Mamba input (or small project directory) on which the changed build misbehaves with respect to the property, together with the behaviour of the unchanged build (do NOT use `git stash`: the stash is shared by all worktrees of the repository and other people work in sibling worktrees; instead save `git diff > /tmp/seed-{wt}-out/p.diff`, `git apply -R` it to build the unchanged tree, and `git apply` it again; or reason from the diff) — run the real binary (see README / `cargo run --offline -- --help`; the CLI transpiles a file or directory: e.g. `cargo run --offline -- -i in.mamba -o outdir`) and, where relevant, run the emitted Python with python3.
 
-{('ALREADY TRIED by others (do something with a DIFFERENT mechanism and a different trigger, ideally in a different file or function; cover another clause of the property statement):' + chr(10) + avoid + chr(10)) if avoid else ''}{('ROUND3 GUIDANCE: earlier authors mostly changed the type checker and the expression printer. Look for your change in a stage nobody touched for this property yet: the PARSER (src/parse/*.rs: operator precedence loops, statement/expression dispatch, blocks and indentation, match/handle arms, argument lists, definitions), the DESUGARING (src/generate/convert/*.rs: State flags, where returns and assignments are inserted, class and constructor synthesis, control flow, calls, collections), the CONSTRAINT BUILDER / UNIFIER (src/check/constrain/constraint/*.rs, unify/*.rs), CONTEXT building from several files (src/check/context/*.rs), or the pipeline glue (src/lib.rs, src/io.rs, src/pipeline). A change spread over two files that belongs together is fine.' + chr(10)) if rnd == 'c' else ''}{('ROUND4 GUIDANCE: three authors have already attacked this property (listed above). Re-read the property STATEMENT clause by clause and pick a clause, a language construct or a code path none of them touched. Constructs that were rarely exercised so far: match patterns and tuple destructuring, with-resources, for loops over ranges / slices / collections, while loops with break / continue, handle blocks nested in functions, class constructors with parent arguments, top-level script code versus code inside functions and methods, type aliases and conditions, generics (List / Set / Dict / Tuple of user classes), anonymous functions, string interpolation, imports between files of a project, the std-lib stubs under src/check/resource, the CLI and file handling in src/io.rs / src/lib.rs / src/main.rs. A change spread over two files that belongs together is fine.' + chr(10)) if rnd == 'd' else ''}Prefer a change in the code the anchors point at, and prefer subtle over blatant: it should look like an honest mistake. Do not merely revert one of the most recent commits of the history wholesale (you may look at `git log` for inspiration about what kind of thing goes wrong).
+{('ALREADY TRIED by others (do something with a DIFFERENT mechanism and a different trigger, ideally in a different file or function; cover another clause of the property statement):' + chr(10) + avoid + chr(10)) if avoid else ''}{('ROUND3 GUIDANCE: earlier authors mostly changed the type checker and the expression printer. Look for your change in a stage nobody touched for this property yet: the PARSER (src/parse/*.rs: operator precedence loops, statement/expression dispatch, blocks and indentation, match/handle arms, argument lists, definitions), the DESUGARING (src/generate/convert/*.rs: State flags, where returns and assignments are inserted, class and constructor synthesis, control flow, calls, collections), the CONSTRAINT BUILDER / UNIFIER (src/check/constrain/constraint/*.rs, unify/*.rs), CONTEXT building from several files (src/check/context/*.rs), or the pipeline glue (src/lib.rs, src/io.rs, src/pipeline). A change spread over two files that belongs together is fine.' + chr(10)) if rnd == 'c' else ''}{('ROUND GUIDANCE: several authors have already attacked this property (listed above). Re-read the property STATEMENT clause by clause and pick a clause, a language construct or a code path none of them touched. Constructs that were rarely exercised so far: match patterns and tuple destructuring, with-resources, for loops over ranges / slices / collections, while loops with break / continue, handle blocks nested in functions, class constructors with parent arguments, top-level script code versus code inside functions and methods, type aliases and conditions, generics (List / Set / Dict / Tuple of user classes), anonymous functions, string interpolation, imports between files of a project, the std-lib stubs under src/check/resource, the CLI and file handling in src/io.rs / src/lib.rs / src/main.rs. A change spread over two files that belongs together is fine.' + chr(10)) if rnd in ('d', 'e') else ''}Prefer a change in the code the anchors point at, and prefer subtle over blatant: it should look like an honest mistake. Do not merely revert one of the most recent commits of the history wholesale (you may look at `git log` for inspiration about what kind of thing goes wrong).
 
 DELIVERABLES (all under /tmp/seed-{wt}-out/):
   - patch.diff : output of `git -C /tmp/seed-{wt} diff` (source change only; must apply with `git apply` to the same commit);
